@@ -132,7 +132,13 @@ def rule_whole_arrays(ctx: Ctx) -> None:
     kw = [p for p in es.param_names() if "kwargs" in p]
     if kw:
         la = _materialising(cfg, kw[0])
-        runs = cfg.nodes(lambda s: not isinstance(s, (ast.If, ast.For)) and any(isinstance(c, ast.Call) and dotted(c.func) in ("_get_or_set_cache", "_run_iteration") or (isinstance(c, ast.Call) and any(k.arg is None and norm(k.value) == kw[0] for k in c.keywords)) for c in ast.walk(s)))
+        def splats(node: ast.AST) -> bool:
+            return any(isinstance(c, ast.Call) and any(k.arg is None and norm(k.value) == kw[0] for k in c.keywords) for c in ast.walk(node))
+
+        # where the function is run: a statement that calls with **kwargs itself, or one that uses a nested function doing so
+        # (the nested `def` statement alone runs nothing)
+        thunks = {x.name for x in es.node.body if isinstance(x, (ast.FunctionDef, ast.AsyncFunctionDef)) and splats(x)}
+        runs = cfg.nodes(lambda s: not isinstance(s, (ast.If, ast.For, ast.While, ast.FunctionDef, ast.AsyncFunctionDef)) and (splats(s) or any(isinstance(x, ast.Name) and x.id in thunks for x in ast.walk(s))))
         ok = bool(la) and bool(runs) and all(any(cfg.dominates(x, r) for x in la) for r in runs)
         ctx.tri("3-whole-arrays", es, cfg.stmt[runs[0]] if runs else es.node, ok, bool(runs) and not ok, "a function without MapSpec receives whole arrays",
                 f"_execute_single runs the function without materialising `{kw[0]}` first: it receives storage handles", "the call of the function was not found", key="single-loads")
